@@ -8,11 +8,14 @@ import sys
 VERIF = os.path.dirname(os.path.dirname(os.path.abspath(__file__)))
 sys.path.insert(0, VERIF)
 out = {}
+inst = {}
 for n in range(1, 21):
     p = f'C{n:02d}'
     r = subprocess.run([os.path.join(VERIF, 'check'), p, '--no-evidence', '--jobs', '8', '--dump-names'], capture_output=True, text=True, cwd=VERIF)
     names = [ln[len('NAME '):] for ln in r.stdout.splitlines() if ln.startswith('NAME ')]
     fams = sorted({x.split('[')[0] for x in names if not x.endswith('native-sweep[bounded]')})
     out[p] = fams
+    inst[p] = sorted(x for x in names if not x.endswith('native-sweep[bounded]'))
     print(p, len(names), 'obligations,', len(fams), 'families', 'exit', r.returncode)
 json.dump(out, open(os.path.join(VERIF, 'baseline_obligations.json'), 'w'), indent=1)
+json.dump(inst, open(os.path.join(VERIF, 'baseline_instances.json'), 'w'), indent=0)
